@@ -48,7 +48,7 @@ LEVEL_TEXT = {
     'C17': 'Exploration + enumerated chunk-boundary sizes (hook) + the real 100 MiB chunk boundary: bytes written/returned vs int.to_bytes, read-back windows vs the selected source bits.',
     'C18': 'Exploration, differential against struct and array from the standard library; endian relations by byte reversal; byteswap involution.',
     'C19': 'Exploration: printed text is parsed back (Bits(str), eval(repr), digits of pp lines) and checked against layout predicates, in both bit numbering modes and colour settings.',
-    'C20': 'Exploration (API fuzzing with typed adversarial arguments in histories): exception-class oracle plus validity of every involved object and of the module options; one known finding (segfault inside the third-party bitarray extension) excluded by construction.',
+    'C20': 'Exploration (API fuzzing with typed adversarial arguments in histories): exception-class oracle plus validity of every involved object and of the module options; two known findings (segfaults inside the third-party bitarray extension for del and int-assignment with slice steps beyond 2**63-2) excluded by construction and counted; a worker killed by a signal is turned into a minimised violation by re-running its traced case in a child process.',
 }
 
 NOTE = 'Trusted: CPython, hypothesis, the str/int/struct/fractions reference models in /verif/vf (self-tested against the documentation examples at the start of every run). bitarray (C extension) is part of the code under test only through bitstring. Bounded by the generated sizes/case counts recorded in the evidence file.'
